@@ -372,7 +372,12 @@ func c13EngineCtxBoost(ctx *Ctx) {
 			cmds = db.Commands
 			dbName = "shipped"
 		} else {
-			cmds0 := vlib.GenCommands(r, c13DBSpec(ctx.Shard+d*ctx.NShards+int(ctx.Seed%7)))
+			sp := c13DBSpec(ctx.Shard + d*ctx.NShards + int(ctx.Seed%7))
+			if ctx.G(d)%16 == 9 { // thousands of entries: requests with hundreds of candidates (any window or cut-off inside the ranking is crossed)
+				sp.N = 1200 + r.Intn(1500)
+				ctx.R.Path("large-databases", 1)
+			}
+			cmds0 := vlib.GenCommands(r, sp)
 			if !ctx.R.Guard("C13", "LoadDatabase", dbName, func() { db = vlib.MustLoad(cmds0) }) {
 				continue
 			}
@@ -413,10 +418,35 @@ func c13EngineCtxBoost(ctx *Ctx) {
 
 		nq := nQ
 		if shipped {
-			nq = ctx.Pick(5, 12)
+			nq = ctx.Pick(6, 12)
+		}
+		// the most frequent words of a large database: requests made of them have hundreds or thousands of candidates
+		var frequent []string
+		if n > 1000 {
+			type wf struct {
+				w  string
+				df int
+			}
+			var all []wf
+			for w, df := range ref.DF {
+				if len(w) > 2 {
+					all = append(all, wf{w, df})
+				}
+			}
+			sort.Slice(all, func(i, j int) bool { return all[i].df > all[j].df || all[i].df == all[j].df && all[i].w < all[j].w })
+			for i := 0; i < len(all) && i < 150; i++ {
+				frequent = append(frequent, all[i].w)
+			}
+			if nq > 8 {
+				nq = 8
+			}
 		}
 		for qi := 0; qi < nq; qi++ {
 			q := c13Query(r, words)
+			if len(frequent) > 0 && qi%2 == 0 {
+				q = vlib.GenQuery(r, frequent, 2+r.Intn(3), 0)
+				ctx.R.Path("frequent-word-queries", 1)
+			}
 			qTok := vlib.Tokenize(q)
 
 			// ---- SearchUniversal, NLP off and on --------------------------------
@@ -451,6 +481,9 @@ func c13EngineCtxBoost(ctx *Ctx) {
 				m0, why := c13StableRef(ev)
 				if why == "reference-unstable" {
 					ctx.R.Extra["c13_unstable_reference_example"] = base
+				}
+				if len(m0) > 400 {
+					ctx.R.Path("requests-with-over-400-candidates", 1)
 				}
 				for bi := 0; bi < nB; bi++ {
 					cs := base
@@ -1017,6 +1050,26 @@ func c13EngineAnalyzer(ctx *Ctx) {
 	for i := 0; i < n; i++ {
 		ents, info := c13GenDir(r)
 		twin := r.Intn(4) == 0
+		crowd := 0
+		if ctx.G(i)%96 == 5 { // a crowded directory (downloads, build output, data sets): hundreds to tens of thousands of entries that announce nothing
+			crowd = []int{300, 1000, 2049, 4097, 5000, 9000, 20000}[r.Intn(7)]
+			taken := map[string]bool{}
+			for _, e := range ents {
+				taken[e.Name] = true
+			}
+			for k := 0; k < crowd; k++ {
+				nm := fmt.Sprintf("%szz-item-%05d.dat", []string{"", "a", "m", "~"}[k%4], k)
+				if taken[nm] || c13MaybeMarker(nm) {
+					continue
+				}
+				ents = append(ents, c13Ent{Name: nm, IsDir: k%97 == 0})
+			}
+			twin = false
+			ctx.R.Path("crowded-directories", 1)
+			if crowd > 4096 {
+				ctx.R.Path("crowded-directories-over-4096", 1)
+			}
+		}
 		names := make([]string, 0, len(ents))
 		h := fnv.New64a()
 		var pkgText, mkText string
@@ -1028,6 +1081,15 @@ func c13EngineAnalyzer(ctx *Ctx) {
 			names = append(names, nm)
 		}
 		sort.Strings(names)
+		if crowd > 0 { // the witness lists the entries that matter
+			kept := names[:0]
+			for _, nm := range names {
+				if !strings.Contains(nm, "zz-item-") {
+					kept = append(kept, nm)
+				}
+			}
+			names = append(kept, fmt.Sprintf("... plus %d entries named [a|m|~]zz-item-NNNNN.dat", crowd))
+		}
 		for _, e := range ents {
 			if e.IsDir {
 				continue
